@@ -176,6 +176,89 @@ def prodNat (xs : List Nat) : Nat := xs.foldl (· * ·) 1
 
 def rabs (x : Rat) : Rat := if x < 0 then -x else x
 
+/-! ### the boundary band: the region's own scale and a bound for the double-precision rounding error
+
+Implementation (IEEE doubles) and model (exact rationals) can only differ at points whose distance to the
+boundary is below the rounding error of the coded formula.  Every coded test is a short chain
+(≤ 12 operations: `xmin + width/2`, `p − c`, a 2×2 rotation with `cos`/`sin` of a double angle that is
+itself within 2 ulp of the exact one, squares, one division, `xc ± radius`, corner = `R·d + c`) whose
+intermediate results are bounded by `|centre|∞ + |p|∞ + size`; with unit round-off `u = 2⁻⁵³` the accumulated
+absolute error is below `512·u·(|centre|∞ + |p|∞ + size) = 2⁻⁴⁴·(…)` (angles are < 2⁵ in absolute value, so the
+angle error `2⁻⁴⁸` moves a point of the region by < `2⁻⁴⁷·size`).  The band is therefore *relative to the
+region's own size and position* — never an absolute constant: honest float64 evaluation stays inside it,
+float32 round trips (`2⁻²⁴`) and absolute tolerances (`1e-8`) do not. -/
+
+def pow2 (n : Nat) : Rat := ((2 ^ n : Nat) : Rat)
+
+/-- `2⁻⁴⁴ = 512 · 2⁻⁵³`. -/
+def ulpK : Rat := 1 / pow2 44
+
+def ptMag (p : Pt) : Rat := rmax (rabs p.1) (rabs p.2)
+
+/-- The region's own scale: its largest extent. -/
+def roiSize : Roi → Rat
+  | .rect r => rmax (rabs r.width) (rabs r.height)
+  | .circle c => rabs c.r
+  | .ellipse e => rmax (rabs e.rx) (rabs e.ry)
+  | .annulus a => rmax (rabs a.rin) (rabs a.rout)
+  | .range r => rabs (r.hi - r.lo)
+  | .poly g => match polyBBox g.vs with
+    | some b => rmax (b.2.1 - b.1) (b.2.2.2 - b.2.2.1)
+    | none => 0
+  | .undefined => 0
+
+/-- `|centre|∞` (largest absolute coordinate among the parameters). -/
+def roiMag : Roi → Rat
+  | .rect r => rmax (rmax (rabs r.xmin) (rabs r.xmax)) (rmax (rabs r.ymin) (rabs r.ymax))
+  | .circle c => rmax (rabs c.xc) (rabs c.yc)
+  | .ellipse e => rmax (rabs e.xc) (rabs e.yc)
+  | .annulus a => rmax (rabs a.xc) (rabs a.yc)
+  | .range r => rmax (rabs r.lo) (rabs r.hi)
+  | .poly g => g.vs.foldl (fun m v => rmax m (ptMag v)) 0
+  | .undefined => 0
+
+/-- What the un-rotated branches ignore when taken for a tilt ≤ 1e-9 rad (`*_branches_agree`). -/
+def roiBranchTol : Roi → Rat
+  | .rect r => r.branchTol
+  | .ellipse e => if 0 < e.rx ∧ 0 < e.ry then e.branchTol else 0
+  | _ => 0
+
+/-- Rounding-error bound of `contains` on the given parameters at point `p`, as a displacement of the
+boundary.  Ranges and un-rotated rectangles only compare (`x > xmin`): no arithmetic, no error.  The
+polygon test subtracts vertex and point coordinates first (`vty1 − ty`, relative error `u` of the
+*difference*), so its error does not grow with the distance from the origin: a misjudged crossing needs
+`|p.x − X.x| ≤ 4u·(|edge|∞ + |b − p|∞)` for the intersection `X` of the edge with the horizontal through `p`. -/
+def floatBand (roi : Roi) (p : Pt) : Rat :=
+  match roi with
+  | .range _ => 0
+  | .undefined => 0
+  | .rect r =>
+    (match branchOf r.c r.s with
+     | .axis => 0
+     | _ => ulpK * (roiMag roi + roiSize roi + ptMag p))
+  | .poly g =>
+    (match g.vs.head? with
+     | some v => ulpK * (roiSize roi + ptMag (p.1 - v.1, p.2 - v.2))
+     | none => 0)
+  | _ => ulpK * (roiMag roi + roiSize roi + ptMag p)
+
+/-- Band actually used at point `p`: the recorded `ε` (`1e-6·size` for arbitrary-float cases, `0` on the
+magnitude ladder), the ignored tilt, and the rounding bound. -/
+def bandAt (roi : Roi) (ε : Rat) (p : Pt) : Rat := rmax ε (rmax (roiBranchTol roi) (floatBand roi p))
+
+def nearBand (roi : Roi) (ε : Rat) (exact : Bool) (p : PtO) : Bool :=
+  match finitePt roi p with
+  | some q => roi.near q (if exact then ε else bandAt roi ε q)
+  | none => false
+
+def hypEps (roi : Roi) (ε : Rat) (exact : Bool) : Rat := if exact then ε else rmax ε (roiBranchTol roi)
+
+/-- Coverage bucket: size of the region and its offset relative to the size. -/
+def magBucket (s m : Rat) : String :=
+  let sz := if s = 0 then "s0" else if s < 1 / pow2 16 then "tiny" else if s ≤ pow2 10 then "mid" else "huge"
+  let off := if s = 0 then "" else if m ≤ 64 * s then "" else if m ≤ pow2 24 * s then "+off" else "+OFF"
+  sz ++ off
+
 /-- Conditioning of the shoelace sums of a polygon: `1 + Σ|dᵢ| / |Σ dᵢ|` (`dᵢ` the cross products of
 consecutive offsets from the mean).  The double-precision centroid carries an absolute error of about
 `2⁻⁵³ · extent · κ²`; the recorded centre tolerance is multiplied by `κ²` (κ is 1–3 for ordinary
@@ -189,8 +272,24 @@ def polyCond (vs : List Pt) : Rat :=
     let a2 := rabs (sumList ds)
     if a2 = 0 then 1 else 1 + sumList (ds.map rabs) / a2
 
+/-- Geometric conditioning of a polygon's centroid with respect to its vertices: moving one vertex by `δ`
+changes the area by up to `δ·extent` and the centroid by up to `δ·extent²/|A|` (a thin polygon of length `L`
+and width `W` has `extent²/|A| ≈ L/W`: a perpendicular nudge of one corner changes the taper and slides the
+centroid along the long axis).  First-order analysis of `centroid = mean + N/(6A)`:
+`|ΔC| ≲ n·extent²/|A| · κ · (u·extent + δ)`.  `γ = 1 + n·extent²/(4|A|)` (`γ = 2` for a square). -/
+def polyGeomCond (vs : List Pt) : Rat :=
+  let a := rabs (polyAreaSigned vs)
+  if a = 0 then 1 else
+  match polyBBox vs with
+  | some b =>
+    let ext := rmax (b.2.1 - b.1) (b.2.2.2 - b.2.2.1)
+    1 + (vs.length : Rat) * ext * ext / (4 * a)
+  | none => 1
+
+/-- Factor on the rounding bound for quantities that depend on a polygon's `center()`:
+`κ·max(κ, γ)` (`κ` = cancellation of the shoelace lobes, `γ` = geometric conditioning). -/
 def centreTolFactor : Roi → Rat
-  | .poly g => polyCond g.vs * polyCond g.vs
+  | .poly g => polyCond g.vs * rmax (polyCond g.vs) (polyGeomCond g.vs)
   | _ => 1
 
 /-! ### discretisation family helpers -/
@@ -214,6 +313,29 @@ def liftO (roi : Roi) (f : Pt → Bool) (p : PtO) : Bool :=
   | some q => f q
   | none => false
 
+/-- Rounding bound of `screen = (M·v)[:2] / (M·v)[3]` (∞-norm): each row is a 4-term dot product
+(`|h̃ᵢ − hᵢ| ≤ 4u·eᵢ`, `eᵢ = Σⱼ|mᵢⱼ vⱼ|`), then one division:
+`|s̃ − s| ≤ 4u·e_i/|h₃| + |hᵢ|·4u·e₃/h₃² + u·|s|` — bounded by `2⁻⁴⁴·(eᵢ/|h₃| + |hᵢ|e₃/h₃²)`. -/
+def projBand (P : Proj) (q : Pt3O) : Rat :=
+  match q with
+  | (some x, some y, some z) =>
+    let h3 := P.hom 3 x y z
+    if h3 = 0 then 0 else
+    let e := fun (i : Nat) => rabs (P.entry i 0 * x) + rabs (P.entry i 1 * y) + rabs (P.entry i 2 * z) + rabs (P.entry i 3)
+    let b := fun (i : Nat) => e i / rabs h3 + rabs (P.hom i x y z) * e 3 / (h3 * h3)
+    ulpK * rmax (b 0) (b 1)
+  | _ => 0
+
+/-- A polygon `rotate_to` inside the `1e-9` skip window does not rotate (outside `OpsOk`, `p = F`): the
+points of the region stay where they are instead of moving by `|sin δ|·|p − centre|`. -/
+def skipTol : Roi → List Op → Rat
+  | _, [] => 0
+  | cur, op :: rest =>
+    (match cur, op with
+     | .poly g, .rotate c s =>
+       if closeFull (c * g.c + s * g.s) (s * g.c - c * g.s) then 4 * rabs (s * g.c - c * g.s) * roiSize cur else 0
+     | _, _ => 0) + skipTol (Impl.applyOp cur op) rest
+
 /-! ### the step function -/
 
 def stepContains (roiE ptsE epsE exactE pyout : Sexp) : String :=
@@ -228,15 +350,15 @@ def stepContains (roiE ptsE epsE exactE pyout : Sexp) : String :=
         | some py =>
           let implF := Impl.containsFn roi
           let (out, ok, implok, nb) := compareBits ps py (liftO roi implF) (containsO Spec.contains roi)
-            (fun p => nearO roi p ε) exact
+            (nearBand roi ε exact) exact
           let okShape := pshape == ofNats shape
-          driverResult (.list [ofNats shape, ofBits out]) (ok && okShape) implok (inHyp roi ε)
-            (roiKind roi ++ (if exact then "/exact/" else "/") ++ bandBucket nb)
+          driverResult (.list [ofNats shape, ofBits out]) (ok && okShape) implok (inHyp roi (hypEps roi ε exact))
+            (roiKind roi ++ (if exact then "/exact/" else "/") ++ magBucket (roiSize roi) (roiMag roi) ++ "/" ++ bandBucket nb)
         | none => driverResult (.list [ofNats shape, .atom "b"]) false true true "bad-bits"
       | _ =>
         let implF := Impl.containsFn roi
         let out := ps.map (liftO roi implF)
-        driverResult (.list [ofNats shape, ofBits out]) false true (inHyp roi ε) (roiKind roi ++ "/py-error")
+        driverResult (.list [ofNats shape, ofBits out]) false true (inHyp roi (hypEps roi ε exact)) (roiKind roi ++ "/py-error")
   | _, _, _, _ => bad "contains-args"
 
 def stepOps (roiE opsE ptsE epsE tolE pyout : Sexp) : String :=
@@ -252,12 +374,24 @@ def stepOps (roiE opsE ptsE epsE tolE pyout : Sexp) : String :=
     let specF := fun (p : PtO) => match pull p with
       | some q => Spec.contains roi q
       | none => false
+    -- rounding bound for parameters that were themselves computed (`center()`, `x − cx`, `xmin += dx`,
+    -- `R·(v − c) + c`): every visited centre enters, once per operation; a polygon's centroid carries the
+    -- conditioning `κ²` of its shoelace sums.
+    let mag := ops.foldl (fun m o => match o with | .move t => rmax m (ptMag t) | _ => m) (roiMag roi)
+    let kf := ((ops.length + 1 : Nat) : Rat) * centreTolFactor fin
+    let ε := rmax ε (rmax (roiBranchTol fin) (skipTol roi ops))
+    let band := fun (p : PtO) => match p with
+      | (some x, some y) => rmax ε (ulpK * kf * (mag + 2 * roiSize roi + ptMag (x, y)))
+      | (some x, none) => rmax ε (ulpK * kf * (mag + 2 * roiSize roi + rabs x))
+      | (none, some y) => rmax ε (ulpK * kf * (mag + 2 * roiSize roi + rabs y))
+      | _ => ε
     let nearF := fun (p : PtO) => match pull p with
-      | some q => roi.near q ε
+      | some q => roi.near q (band p)
       | none => false
     let mc := fin.center
-    let tolc := tolc * centreTolFactor fin
-    let hyp := roi.defined && isUnit (Spec.orient roi).1 (Spec.orient roi).2 && opsOkB roi ops && inHyp fin ε
+    let tolc := rmax tolc (ulpK * ((ops.length + 1 : Nat) : Rat) * (mag + 2 * roiSize roi)) * centreTolFactor fin
+    let hyp := roi.defined && isUnit (Spec.orient roi).1 (Spec.orient roi).2 && opsOkB roi ops &&
+      inHyp fin ε
     let kinds := roiKind roi ++ "→" ++ roiKind fin
     match pyout with
     | .list [pbits, pc] =>
@@ -272,7 +406,7 @@ def stepOps (roiE opsE ptsE epsE tolE pyout : Sexp) : String :=
           | _, _ => false
         let cOut := if cEcho then pc else ofCentre mc
         driverResult (.list [ofBits out, cOut]) (ok && cOk) (implok && mc == st.ctr) hyp
-          (kinds ++ "/" ++ bandBucket nb)
+          (kinds ++ "/" ++ magBucket (roiSize roi) mag ++ "/" ++ bandBucket nb)
       | _, _ => driverResult (.list [ofBits (ps.map implF), ofCentre mc]) false true hyp (kinds ++ "/bad-py")
     | _ => driverResult (.list [ofBits (ps.map implF), ofCentre mc]) false true hyp (kinds ++ "/py-error")
   | _, _, _, _, _ => bad "ops-args"
@@ -289,21 +423,24 @@ def stepProj (roiE mE ptsE epsE exactE pyout : Sexp) : String :=
       let covered : List Bool :=
         if chunks.length == 1 && chunks.all (fun ch => ArrayUtil.chunkSize ch == prodNat shape) then ps.map fun _ => true
         else (ArrayUtil.allIndices shape).map fun idx => chunks.any (ArrayUtil.inChunk idx)
-      let rows := (ps.map P.screen).zip covered
+      let rows := ((ps.map P.screen).zip (ps.map (projBand P))).zip covered
       let impl2 := Impl.containsFn roi
-      let implF := fun (r : PtO × Bool) => r.2 && liftO roi impl2 r.1
-      let specF := fun (r : PtO × Bool) => containsO Spec.contains roi r.1
-      let nearF := fun (r : PtO × Bool) => nearO roi r.1 ε
+      let implF := fun (r : (PtO × Rat) × Bool) => r.2 && liftO roi impl2 r.1.1
+      let specF := fun (r : (PtO × Rat) × Bool) => containsO Spec.contains roi r.1.1
+      let nearF := fun (r : (PtO × Rat) × Bool) =>
+        match finitePt roi r.1.1 with
+        | some q => roi.near q (if exact then ε else rmax (bandAt roi ε q) (2 * r.1.2 + floatBand roi q + roiBranchTol roi))
+        | none => false
       match pyout with
       | .list [pshape, pbits] =>
         match bits? pbits with
         | some py =>
           let (out, ok, implok, nb) := compareBits rows py implF specF nearF exact
-          driverResult (.list [ofNats shape, ofBits out]) (ok && pshape == ofNats shape) implok (inHyp roi ε)
-            ("proj-" ++ roiKind roi ++ (if chunks.length > 1 then "/chunks" ++ toString chunks.length else "/1chunk") ++
+          driverResult (.list [ofNats shape, ofBits out]) (ok && pshape == ofNats shape) implok (inHyp roi (hypEps roi ε exact))
+            ("proj-" ++ roiKind roi ++ "/" ++ magBucket (roiSize roi) (roiMag roi) ++ (if chunks.length > 1 then "/chunks" ++ toString chunks.length else "/1chunk") ++
              (if exact then "/exact/" else "/") ++ bandBucket nb)
         | none => driverResult (.list [ofNats shape, .atom "b"]) false true true "bad-bits"
-      | _ => driverResult (.list [ofNats shape, ofBits (rows.map implF)]) false true (inHyp roi ε) "proj/py-error"
+      | _ => driverResult (.list [ofNats shape, ofBits (rows.map implF)]) false true (inHyp roi (hypEps roi ε exact)) "proj/py-error"
   | _, _, _, _, _ => bad "proj-args"
 
 def stepDisc (roiE ptsE epsE pyout : Sexp) : String :=
@@ -314,21 +451,23 @@ def stepDisc (roiE ptsE epsE pyout : Sexp) : String :=
       match discBounds roi, bits? pbits, vsE.toList?.bind (·.mapM pt?) with
       | some (lower, upper), some py, some vs =>
         -- every vertex of `to_polygon()` lies on the boundary (within ε) of the region it approximates
-        let vertsOk := vs.all fun v => roi.near v ε
+        -- (`xc + r·cos θ`: rounding ≤ a few ulp of `|centre| + size`)
+        let εv := rmax ε (rmax (roiBranchTol roi) (4 * ulpK * (roiMag roi + roiSize roi)))
+        let vertsOk := vs.all fun v => roi.near v εv
         let g : Roi := .poly { vs := vs }
         let implG := Impl.containsFn g
         let implF := liftO g implG
-        let nearF := fun (p : PtO) => nearO g p ε
+        let nearF := nearBand g ε false
         -- model fidelity: the polygon test on the very vertices python produced
         let (out, _, _, nb) := compareBits ps py implF implF nearF false
         -- discretisation clause: far inside the inscribed-scaled region ⇒ True; far outside ⇒ False
-        let mustT := fun (p : PtO) => containsO Spec.contains lower p && !nearO lower p ε
-        let mustF := fun (p : PtO) => !containsO Spec.contains upper p && !nearO upper p ε
+        let mustT := fun (p : PtO) => containsO Spec.contains lower p && !nearO lower p εv && !nearF p
+        let mustF := fun (p : PtO) => !containsO Spec.contains upper p && !nearO upper p εv && !nearF p
         let clause := (ps.zip py).all fun (p, b) => (!mustT p || b) && (!mustF p || !b)
         let implClause := ps.all fun p => nearF p || ((!mustT p || implF p) && (!mustF p || !implF p))
         let free := (ps.filter fun p => !mustT p && !mustF p).length
         driverResult (.list [vsE, ofBits out]) (clause && vertsOk && py.length == ps.length) implClause true
-          ("disc-" ++ roiKind roi ++ "/" ++ bandBucket nb ++ "/free" ++ bandBucket free)
+          ("disc-" ++ roiKind roi ++ "/" ++ magBucket (roiSize roi) (roiMag roi) ++ "/" ++ bandBucket nb ++ "/free" ++ bandBucket free)
       | _, _, _ => driverResult (.atom "bad") false true true "disc/bad-py"
     | _ => driverResult (.atom "bad") false true true "disc/py-error"
   | _, _, _ => bad "disc-args"
